@@ -43,7 +43,7 @@ REGISTRATION = {
             "proposed_fixes/C09-F10d-stage-chunked-blob.patch repairs it and the check passes on both trees.",
 }
 
-MODULES = ["OllamaVerif.Properties.C09", "OllamaVerif.Tie.C09"]
+MODULES = ["OllamaVerif.Properties.C09", "OllamaVerif.Properties.C09Tree", "OllamaVerif.Tie.C09"]
 THEOREMS = [
     "OllamaVerif.C09.put_ok_verified",
     "OllamaVerif.C09.put_whole_layer_verified",
@@ -80,6 +80,13 @@ THEOREMS = [
     "OllamaVerif.Tie.C09.canRetry_matches_handlePull",
     "OllamaVerif.Tie.C09.outcomeOf_covers",
     "OllamaVerif.C09.pull_success_verified_partial",
+    # round 7: the invariant on the tree as it is (no staging), guarded by size-consistent manifests
+    "OllamaVerif.C09.advance_inv",
+    "OllamaVerif.C09.pullRun_keeps_complete_files",
+    "OllamaVerif.C09.pull_preserves_verified_blobs_sized",
+    "OllamaVerif.C09.history_linked_layers_verified_tree",
+    "OllamaVerif.C09.handlePull_linked_layers_verified_tree",
+    "OllamaVerif.C09.F10d_breaks_unguarded_invariant_on_tree",
 ]
 OVERLAY = {"server/internal/client/ollama/zz_verif_c09_test.go": "server_internal_client_ollama/zz_verif_c09_test.go"}
 OVERLAY_LEGACY = {"server/zz_verif_c09_push_test.go": "server/zz_verif_c09_push_test.go"}
@@ -148,6 +155,77 @@ def l1_inputs(ctx, outdir, normalize=None):
                                   "impl=" + core.clip(a.strip(), 700) + " model=" + core.clip(b.strip(), 700))
 
 
+# Branches of the Pull model (Model/RegistryCov.lean: advanceT / stepT / putTags / finishTags, proved equal to
+# the model's advance / step by advanceT_fst, stepT_fst, runStepsT_fst, pullRun_traced) that every full run must
+# reach through L1-compared cases.  A branch the theorems talk about that no generated case exercises means the
+# exact agreement says nothing about it: the check fails closed (`correspondence-coverage`).
+REQUIRED_BRANCHES = [
+    "layer.size-shortcut", "layer.prevalidated-chunker", "layer.create-file", "layer.open-partial-file",
+    "layer.open-oversized-file", "layer.chunked", "layer.single-chunk", "layer.chunksums-after-cancel",
+    "chunk.of-skipped-layer", "chunk.marker-hit", "chunk.marker-stale", "chunk.blocked-in-go", "chunk.launched",
+    "chunk.launched-after-cancel", "waiting-chunk.launched",
+    "waiting-chunk.launched-after-cancel", "waiting-chunk.launched-marker-appeared-meanwhile",
+    "closer.blocked-in-go", "closer.holds-slot", "closer.returns-at-once", "main.reached-wait",
+    "answer.redirect-followed", "answer.request-failed", "answer.body-to-prevalidated-chunker",
+    "answer.stall-times-out-other-requests", "answer.after-first-error", "answer.out-of-launch-order",
+    "put.ok", "put.digest-mismatch-last-write-refused", "put.short-body", "put.read-error",
+    "put.stalled-until-read-timeout", "put.zero-length-chunk", "put.extra-bytes-cut", "put.several-reads",
+    "put.beyond-file-end-leaves-hole", "put.overwrites-existing-bytes", "put.failed-after-partial-write",
+    "cancel.fails-waiting-requests", "timeout.fails-waiting-requests",
+    "finish.goroutine-error", "finish.counter-below-expected", "finish.counter-above-expected", "finish.verified",
+    "finish.verification-failed-blob-removed", "verify.blob-short", "verify.blob-oversized",
+    "verify.blob-wrong-content", "link.new", "link.replaced",
+    "pull.resolve-failed", "pull.no-layers",
+]
+# Branches the model has only because its functions are total; not behaviours of the code, not required:
+BRANCHES_NOT_BEHAVIOURS = {
+    "waiting-chunk.still-blocked": "a chunk waiting in g.Go is re-examined only after a goroutine returned, which frees a slot "
+                                   "(slots in use never exceed MaxStreams), so it is never found blocked again",
+    "cancel.nothing-waiting": "no request waiting at a quiescent point means no goroutine is left and the main goroutine is past "
+                              "g.Wait(): Pull has returned, a cancellation has nothing to act on",
+    "timeout.nothing-waiting": "same: no request is waiting, no read timer is armed",
+    "verify.blob-missing": "every layer that is not taken by the size shortcut has had its blob file created by Chunked before "
+                           "verifyLayer runs, and the pass stops at the first removal: os.Open fails only if something outside "
+                           "Pull deletes the file (reachable in the model only for the staged variant)",
+    "finish.script-incomplete": "the step script of a case ends before the attempt does: not a behaviour (Outcome.stuck)",
+    "pull.bad-script": "a step names a request that is not waiting: not a behaviour",
+}
+# reachable only on a tree where Link still has the same-size shortcut (finding F8 of C08, fixed in /repo)
+BRANCHES_IF_LINK_SHORTCUT = ["link.kept-same-size-shortcut"]
+
+
+def model_branch_coverage(ctx, outdir):
+    """Replay every L1-compared pull history through the oracle's `pullcov` (branch tags of the model's own run)
+    and count the tags.  Only histories on which model and code agreed are counted."""
+    import os, subprocess, collections
+    paths = [os.path.join(outdir, n) for n in ("ops.txt", "impl.txt", "model.txt")]
+    if not all(os.path.exists(p) for p in paths):
+        return
+    lines = []
+    with open(paths[0], errors="replace") as fo, open(paths[1], errors="replace") as fi, open(paths[2], errors="replace") as fm:
+        for op, a, b in zip(fo, fi, fm):
+            if op.startswith("pull ") and a == b:
+                lines.append("pullcov " + op[5:])
+    p = subprocess.run([ctx.oracle_bin()], input="".join(lines), stdout=subprocess.PIPE, text=True)
+    cnt = collections.Counter()
+    for l in p.stdout.splitlines():
+        cnt.update(l.split())
+    ctx.coverage["model_branches"] = dict(sorted(cnt.items()))
+    ctx.coverage["model_branch_histories"] = len(lines)
+    if ctx.replay:
+        return
+    need = list(REQUIRED_BRANCHES)
+    if any(l.split()[3] == "1" for l in lines[:50]):
+        need += BRANCHES_IF_LINK_SHORTCUT
+    missing = [b for b in need if cnt.get(b, 0) == 0]
+    ctx.coverage["model_branches_never_reached"] = missing
+    ctx.coverage["model_branches_not_behaviours"] = BRANCHES_NOT_BEHAVIOURS
+    if missing:
+        ctx.violation("correspondence-coverage", "",
+                      "branches of the Pull model that no L1-compared case of this run reached: " + ", ".join(missing),
+                      no_input=True)
+
+
 def run(ctx):
     if not ctx.replay:
         regenerate(ctx)
@@ -166,6 +244,7 @@ def run(ctx):
         ctx.read_stats(outdir)
         ctx.l1(outdir, label="client")
         l1_inputs(ctx, outdir)
+        model_branch_coverage(ctx, outdir)
         ctx.classify(ctx.l2(outdir))
     if replay_kind in (None, "legacy"):
         env2 = dict(env)
